@@ -122,6 +122,46 @@ Lemma restore_without_tombstone_member_witness :
   abs (restore_state (backup_sel 1 (with_mtimes [(2%Z, Some 1%Z)] (files (snapshot_now s))))) 0%N 5%Z = Some 7%Z.
 Proof. vm_compute. reflexivity. Qed.
 
+(** ** A backup refused because cache snapshots are disabled, then retried: the failed
+    attempt parks the cache contents in the snapshot store, the retry writes them out. *)
+Lemma snapshot_refused_abs s k t : abs (fst (snapshot_refused s)) k t = abs s k t.
+Proof.
+  unfold snapshot_refused. destruct (hot s) eqn:H, (snap s) eqn:S; cbn [fst]; try reflexivity;
+    rewrite step_snapfail_abs, step_snapbegin_abs; reflexivity.
+Qed.
+
+Lemma snapshot_refused_flushed s : quiescent s ->
+  snapshotting (fst (snapshot_refused s)) = false /\ hot (fst (snapshot_refused s)) = [] /\
+  (snd (snapshot_refused s) = true <-> hot s <> []).
+Proof.
+  intros [Q1 Q2]. unfold snapshot_refused. rewrite Q2. destruct (hot s) eqn:H; cbn [fst snd].
+  - rewrite Q1, H. repeat split; try discriminate; congruence.
+  - cbn [step]. rewrite Q1, Q2. cbn. repeat split; congruence.
+Qed.
+
+(** After a failed snapshot (hot store empty, snapshot store pending) the forced snapshot
+    of the retry flushes everything to files. *)
+Lemma snapshot_now_flushes s : snapshotting s = false -> hot s = [] ->
+  hot (snapshot_now s) = [] /\ snap (snapshot_now s) = [].
+Proof.
+  intros Q H. unfold snapshot_now. cbn [step]. rewrite Q. destruct (snap s) eqn:S; cbn; rewrite ?H, ?S; cbn; auto.
+Qed.
+
+Theorem restore_full_backup_after_refusal s since mts :
+  quiescent s ->
+  let s' := snapshot_now (fst (snapshot_refused s)) in
+  length mts = length (files s') ->
+  Forall (fresh_entry since) (with_mtimes mts (files s')) ->
+  forall k t, abs (restore_state (backup_sel since (with_mtimes mts (files s')))) k t = abs s k t.
+Proof.
+  intros Q s' Hlen Hf k t. unfold restore_state. rewrite abs_engine_of, (restored_full_get _ _ _ _ Hf).
+  unfold with_mtimes. rewrite map_snd_combine3 by exact Hlen.
+  destruct (snapshot_refused_flushed s Q) as (R1 & R2 & _).
+  destruct (snapshot_now_flushes _ R1 R2) as [H1 H2].
+  rewrite <- (snapshot_refused_abs s k t), <- (snapshot_now_abs (fst (snapshot_refused s)) k t).
+  fold s'. unfold abs. fold s' in H1, H2. rewrite H1, H2. reflexivity.
+Qed.
+
 (** * Incremental backup: the member list *)
 Lemma indexed_in {A} (l : list A) : forall i j x,
   In (j, x) (indexed i l) <-> (i <= j)%nat /\ nth_error l (j - i) = Some x.
